@@ -1,6 +1,8 @@
 package zzh
 
 import (
+	"math"
+
 	vrt "github.com/sahandsafizadeh/qeep/zzvrt"
 )
 
@@ -9,19 +11,29 @@ import (
 // checkStat asserts that got is the named statistic of the values v (len >= 1).
 func checkStat(op string, got float64, v []float64) {
 	n := len(v)
+	// magnitude of the reference computation's intermediate values (native replay only): the native
+	// tolerance is relative to it, so statistics of tiny data (1e-9) are compared meaningfully while
+	// any backward-stable formulation still passes (error <= n*eps*scale).
+	sc1, sc2 := 0., 0.
+	if !vrt.Symbolic() {
+		for _, x := range v {
+			sc1 += math.Abs(x)
+			sc2 += x * x
+		}
+	}
 	switch op {
 	case "Sum":
 		s := 0.
 		for _, x := range v {
 			s += x
 		}
-		vrt.AssertEqF("Sum", got, s)
+		vrt.AssertEqFS("Sum", got, s, sc1)
 	case "Avg", "Mean":
 		s := 0.
 		for _, x := range v {
 			s += x
 		}
-		vrt.AssertEqF(op, got, s/float64(n))
+		vrt.AssertEqFS(op, got, s/float64(n), sc1/float64(n))
 	case "Max":
 		ge, in := true, false
 		for _, x := range v {
@@ -39,10 +51,10 @@ func checkStat(op string, got float64, v []float64) {
 		vrt.Assert("Min is a lower bound", le)
 		vrt.Assert("Min is attained", in)
 	case "Var":
-		vrt.AssertEqF("Var", got, refVar(v))
+		vrt.AssertEqFS("Var", got, refVar(v), sc2)
 	case "Std":
 		vrt.Assert("Std is non-negative", got >= 0)
-		vrt.AssertEqF("Std squared is the variance", got*got, refVar(v))
+		vrt.AssertEqFS("Std squared is the variance", got*got, refVar(v), sc2)
 	}
 }
 
